@@ -309,6 +309,15 @@ def render(name, C, kw, outcome, ckpt=None):
         x0n, lbn, ubn, cz(kw.get("maxcor", 10)), ftc, cf(kw.get("ftol", 1e-5)), gtc, cz(kw.get("maxiter", 50)),
         cz(kw.get("maxfun", 15000)), cz(kw.get("maxls", 20)), cf(kw.get("max_steplength", 1e8)), cf(kw.get("ftol_linesearch", 1e-3)),
         cf(kw.get("gtol_linesearch", 0.9)), cf(kw.get("xtol_linesearch", 0.1)), cf(kw.get("eps_SY", 2.2e-16)), ck))
+    # the model's objective / gradient are FUNCTIONS of the point: a recorded run in which the same point got two different
+    # answers (a fault injected by call index at a point evaluated before) cannot be expressed - skipped and counted; such runs
+    # are covered on the implementation by the C20 search
+    for tab, conv in ((C.uf, cf), (C.ug, C.v)):
+        seen = {}
+        for k, r in tab:
+            rr = C.res(r, conv)
+            if seen.setdefault(k, rr) != rr:
+                raise Unsupported("user callable answered differently at the same point")
     ufs = "[" + "; ".join(f"({k}, {C.res(r, cf)})" for k, r in C.uf) + "]"
     ugs = "[" + "; ".join(f"({k}, {C.res(r, C.v)})" for k, r in C.ug) + "]"
     srch = "[" + "; ".join(f"(({k[0]}, {k[1]}, {cz(k[2])}), {v})" for k, v in C.search) + "]"
